@@ -7,6 +7,7 @@
 use std::panic::{catch_unwind, AssertUnwindSafe};
 
 use winter_crypto::{hashers::Blake3_256, BatchMerkleProof, Hasher, MerkleTree};
+use utils::SliceReader;
 use math::fields::f128::BaseElement;
 
 type H = Blake3_256<BaseElement>;
@@ -278,4 +279,61 @@ fn merkle_batch_openings_bounded() {
         }
     }
     println!("NB-RESULT name=merkle_batch_openings_bounded cases={cases} mutations={muts}");
+}
+
+
+// the documented limit of 255 positions per batch opening, on larger trees: openings of 1, 2, 254 and exactly 255 positions
+// (prefix, suffix, every other leaf, seeded random sets) verify, decompress, re-compress and survive
+// serialize_nodes -> deserialize; 256 positions are refused by prove_batch and by deserialize with an error, not a panic
+#[test]
+fn merkle_batch_limits_bounded() {
+    let mut rng = Rng(0x2545F4914F6CDD1D ^ seed().wrapping_mul(0x9E3779B97F4A7C15) | 1);
+    let mut cases = 0u64;
+    for n in [256usize, 512, 1024] {
+        let tree = MerkleTree::<H>::new(leaves(n, seed() ^ 77)).unwrap();
+        let mut sets: Vec<Vec<usize>> = Vec::new();
+        for k in [1usize, 2, 254, 255] {
+            sets.push((0..k).collect());
+            sets.push((n - k..n).collect());
+            if 2 * k <= n {
+                sets.push((0..k).map(|i| 2 * i + 1).collect());
+            }
+            let mut pool: Vec<usize> = (0..n).collect();
+            for i in (1..n).rev() {
+                let j = (rng.next() % (i as u64 + 1)) as usize;
+                pool.swap(i, j);
+            }
+            sets.push(pool[..k].to_vec());
+        }
+        for idx in sets.iter() {
+            complete(&tree, n, idx);
+            let p = tree.prove_batch(idx).unwrap();
+            let bytes = p.serialize_nodes();
+            let mut rd = SliceReader::new(&bytes);
+            let q = match guarded("deserialize", n, idx, || BatchMerkleProof::<H>::deserialize(&mut rd, p.leaves.clone(), p.depth)) {
+                Ok(q) => q,
+                Err(e) => fail("an honest batch opening cannot be parsed back", n, &[idx.len()], &format!("{e:?}")),
+            };
+            if q.leaves != p.leaves || q.nodes != p.nodes || q.depth != p.depth {
+                fail("deserialize(serialize_nodes(p)) differs from p", n, &[idx.len()], "");
+            }
+            if guarded("verify_batch", n, idx, || MerkleTree::<H>::verify_batch(tree.root(), idx, &q)).is_err() {
+                fail("a parsed-back honest batch opening does not verify", n, &[idx.len()], "");
+            }
+            cases += 1;
+        }
+        let too_many: Vec<usize> = (0..256).collect();
+        if guarded("prove_batch", n, &[256], || tree.prove_batch(&too_many)).is_ok() {
+            fail("prove_batch accepts 256 positions", n, &[256], "");
+        }
+        let p = tree.prove_batch(&too_many[..255]).unwrap();
+        let bytes = p.serialize_nodes();
+        let mut lv = p.leaves.clone();
+        lv.push(tree.leaves()[255]);
+        let mut rd = SliceReader::new(&bytes);
+        if guarded("deserialize", n, &[256], || BatchMerkleProof::<H>::deserialize(&mut rd, lv, p.depth)).is_ok() {
+            fail("deserialize accepts 256 leaves", n, &[256], "");
+        }
+    }
+    println!("NB-RESULT name=merkle_batch_limits_bounded cases={cases}");
 }
